@@ -14,37 +14,136 @@ variable {α β : Type}
 /-! ### Trees -/
 
 theorem T.balB_iff (t : T α β) : t.balB = true ↔ t.Bal := by
-  sorry
+  induction t with
+  | nil => simp [T.balB, T.Bal]
+  | node i l k v h r ihl ihr =>
+    simp only [T.balB, T.Bal, Bool.and_eq_true, decide_eq_true_eq, ihl, ihr]
+    constructor
+    · rintro ⟨⟨⟨⟨a, b⟩, c⟩, d⟩, e⟩; exact ⟨a, b, c, d, e⟩
+    · rintro ⟨a, b, c, d, e⟩; exact ⟨⟨⟨⟨a, b⟩, c⟩, d⟩, e⟩
 
 theorem Tree.nodupB_iff (l : List Nat) : Tree.nodupB l = true ↔ l.Nodup := by
-  sorry
+  induction l with
+  | nil => simp [Tree.nodupB]
+  | cons a rest ih => simp [Tree.nodupB, ih]
+
+theorem T.sortedB_iff_keys [LinOrd α] (l : List (Entry α β)) :
+    T.sortedB (l.map (·.2.1)) = true ↔ SortedE l := by
+  induction l with
+  | nil => simp [T.sortedB, SortedE]
+  | cons a rest ih =>
+    cases rest with
+    | nil => simp [T.sortedB, SortedE]
+    | cons b rest =>
+      simp only [List.map_cons, T.sortedB, Bool.and_eq_true, decide_eq_true_eq] at ih ⊢
+      rw [ih]
+      simp only [SortedE, List.mem_cons, forall_eq_or_imp]
+      constructor
+      · rintro ⟨h1, h2, h3⟩
+        exact ⟨⟨h1, fun e he => LinOrd.trans h1 (h2 e he)⟩, h2, h3⟩
+      · rintro ⟨⟨h1, _⟩, h2, h3⟩
+        exact ⟨h1, h2, h3⟩
 
 theorem T.sortedB_iff_bst [LinOrd α] (t : T α β) : T.sortedB t.keys = true ↔ t.Bst := by
-  sorry
+  rw [T.bst_iff_sorted, T.keys, T.sortedB_iff_keys]
 
 /-- The driver's three executable checks (`wf-bst`, `wf-bal`, `wf-alloc`) together are the invariant. -/
 theorem Tree.inv_iff_exec [LinOrd α] (c : TreeCfg) (s : Tree α β) (hw : c.wrap = true ∨ s.slots < c.W) :
     s.Inv c ↔ (T.sortedB s.root.keys = true ∧ s.root.balB = true ∧ s.allocB c = true) := by
-  sorry
+  rw [T.sortedB_iff_bst, T.balB_iff]
+  simp only [Tree.allocB, Bool.and_eq_true, decide_eq_true_eq, List.all_eq_true, Tree.nodupB_iff]
+  constructor
+  · intro h
+    exact ⟨h.bst, h.bal, ⟨⟨⟨⟨⟨⟨h.nodup, h.range⟩, h.count⟩, h.seq_le⟩, h.cap_le⟩, h.slots_le⟩, h.size_eq⟩⟩
+  · rintro ⟨h1, h2, ⟨⟨⟨⟨⟨⟨h3, h4⟩, h5⟩, h6⟩, h7⟩, h8⟩, h9⟩⟩
+    exact ⟨h1, h2, h9, h3, h4, h5, h6, h7, h8, hw⟩
 
 /-- Closed form of the height bound: a height-balanced tree of height `h` has at least `2^(h/2) - 1`
     nodes, hence `height ≤ 2·log2(n+1)` (the exact bound is `minNodes`, ≈ 1.44·log2(n+2)). -/
 theorem minNodes_ge_pow (h : Nat) : 2 ^ (h / 2) ≤ minNodes h + 1 := by
-  sorry
+  induction h using Nat.strongRecOn with
+  | _ h ih =>
+    match h with
+    | 0 => simp [minNodes]
+    | 1 => simp [minNodes]
+    | h + 2 =>
+      have e : (h + 2) / 2 = h / 2 + 1 := by omega
+      have := ih h (by omega)
+      have := T.minNodes_mono h
+      rw [e, Nat.pow_succ]
+      simp only [minNodes]
+      omega
 
 theorem Tree.height_closed_form [LinOrd α] (c : TreeCfg) (s : Tree α β) (h : Tree.Reach c s) :
     2 ^ (s.root.height / 2) ≤ s.size + 1 := by
-  sorry
+  have hi := Tree.reach_inv h
+  have h1 := T.minNodes_le_size hi.bal
+  have h2 := minNodes_ge_pow s.root.height
+  rw [T.ht_eq_height hi.bal] at h1
+  rw [hi.size_eq]
+  omega
 
 /-! ### Hash set -/
 
 theorem HSet.nodupB_iff (l : List Nat) : HSet.nodupB l = true ↔ l.Nodup := by
-  sorry
+  induction l with
+  | nil => simp [HSet.nodupB]
+  | cons a rest ih => simp [HSet.nodupB, ih]
+
+theorem HSet.nodup_iff_prefix (ms : List β) :
+    ms.Nodup ↔ ∀ j v, ms[j]? = some v → v ∉ ms.take j := by
+  induction ms with
+  | nil => simp
+  | cons a rest ih =>
+    rw [List.nodup_cons, ih]
+    constructor
+    · rintro ⟨h1, h2⟩ j v hv
+      cases j with
+      | zero => simp
+      | succ j =>
+        simp only [List.getElem?_cons_succ] at hv
+        simp only [List.take_succ_cons, List.mem_cons, not_or]
+        exact ⟨fun e => h1 (e ▸ List.mem_of_getElem? hv), h2 j v hv⟩
+    · intro h
+      refine ⟨fun ha => ?_, fun j v hv => ?_⟩
+      · obtain ⟨j, hj⟩ := List.getElem?_of_mem ha
+        have := h (j + 1) a (by simpa using hj)
+        simp at this
+      · have := h (j + 1) v (by simpa using hv)
+        simp only [List.take_succ_cons, List.mem_cons, not_or] at this
+        exact this.2
+
+theorem HSet.prefixFree_iff [DecidableEq β] (ms : List β) :
+    (ms.zipIdx.all fun (v, j) => !(ms.take j).contains v) = true ↔ ms.Nodup := by
+  rw [HSet.nodup_iff_prefix]
+  simp [List.all_eq_true, List.mem_zipIdx_iff_getElem?, Prod.forall]
+  constructor
+  · intro h j v hv; exact h v j hv
+  · intro h v j hv; exact h j v hv
+
+theorem HSet.placedB_iff [DecidableEq β] (hash : β → Nat) (s : HSet β) :
+    s.placedB hash = true ↔
+      (∀ b (ch : List (Nat × β)), s.chains[b]? = some ch → ∀ e ∈ ch, b < s.cap ∧ s.bucket hash e.2 = b) ∧
+        s.members.Nodup := by
+  unfold HSet.placedB
+  rw [Bool.and_eq_true]
+  show _ ∧ ((s.members.zipIdx.all fun (v, j) => !(s.members.take j).contains v) = true) ↔ _
+  rw [HSet.prefixFree_iff]
+  simp only [Bool.and_eq_true, decide_eq_true_eq, List.all_eq_true, List.mem_zipIdx_iff_getElem?, Prod.forall]
+  constructor
+  · rintro ⟨hp, hn⟩; exact ⟨fun b ch hb e he => hp ch b hb e he, hn⟩
+  · rintro ⟨hp, hn⟩; exact ⟨fun ch b hb e he => hp b ch hb e he, hn⟩
 
 /-- The driver's executable checks (`wf-alloc`, `wf-placed`) together are the invariant. -/
 theorem HSet.inv_iff_exec [DecidableEq β] (hash : β → Nat) (s : HSet β) (hs : s.slots < 4294967295) :
     s.Inv hash ↔ (s.allocB = true ∧ s.placedB hash = true) := by
-  sorry
+  rw [HSet.placedB_iff]
+  simp only [HSet.allocB, Bool.and_eq_true, HSet.nodupB_iff, decide_eq_true_eq, List.all_eq_true]
+  constructor
+  · intro h
+    exact ⟨⟨⟨⟨⟨⟨h.nodup, h.range⟩, h.count⟩, h.seq_le⟩, h.cap_le⟩, h.size_eq⟩, h.placed, h.nodupVals⟩
+  · rintro ⟨⟨⟨⟨⟨⟨h3, h4⟩, h5⟩, h6⟩, h7⟩, h8⟩, hp, hn⟩
+    exact ⟨hp, hn, h8, h3, h4, h5, h6, h7, hs⟩
 
 inductive HSetOp (β : Type) where
   | insert (v : β)
@@ -59,14 +158,46 @@ inductive HSet.Reach [DecidableEq β] (hash : β → Nat) : HSet β → Prop whe
       HSet.Reach hash s'
 
 theorem HSet.reach_inv [DecidableEq β] {hash : β → Nat} {s : HSet β} (h : HSet.Reach hash s) : s.Inv hash := by
-  sorry
+  induction h with
+  | init slots cap h1 h2 => exact HSet.inv_init hash slots cap h1 h2
+  | insert v r hr hs ih =>
+    rcases HSet.insert_spec ih v with ⟨_, he⟩ | ⟨_, _, s'', he, hi, _⟩
+    · rw [he] at hs
+      cases hs; exact ih
+    · rw [he] at hs
+      cases hs; exact hi
+  | remove v r hr hs ih =>
+    rcases HSet.remove_spec ih v with ⟨_, he⟩ | ⟨_, s'', he, hi, _⟩
+    · rw [he] at hs
+      cases hs; exact ih
+    · rw [he] at hs
+      cases hs; exact hi
 
 /-! ### Array sets -/
+
+theorem T.sortedB_iff_ascK {κ : Type} [LinOrd κ] (l : List κ) : T.sortedB l = true ↔ AscK l := by
+  induction l with
+  | nil => simp [T.sortedB, AscK]
+  | cons a rest ih =>
+    cases rest with
+    | nil => simp [T.sortedB, AscK]
+    | cons b rest =>
+      simp only [T.sortedB, Bool.and_eq_true, decide_eq_true_eq] at ih ⊢
+      rw [ih]
+      simp only [AscK, List.mem_cons, forall_eq_or_imp]
+      constructor
+      · rintro ⟨h1, h2, h3⟩
+        exact ⟨⟨h1, fun e he => LinOrd.trans h1 (h2 e he)⟩, h2, h3⟩
+      · rintro ⟨⟨h1, _⟩, h2, h3⟩
+        exact ⟨h1, h2, h3⟩
 
 /-- The driver's executable check (`wf-sorted`) is the invariant. -/
 theorem ASet.inv_iff_exec (f : AFmt) (s : ASet Nat) :
     s.Inv f.keyOf f.prefixMax ↔ s.wfB f = true := by
-  sorry
+  simp only [ASet.wfB, Bool.and_eq_true, decide_eq_true_eq, T.sortedB_iff_ascK]
+  constructor
+  · intro h; exact ⟨⟨h.len_le, h.len_leP⟩, h.sorted⟩
+  · rintro ⟨⟨h1, h2⟩, h3⟩; exact ⟨h1, h2, h3⟩
 
 /-- States reachable from a zero-filled buffer by insert / take / order-preserving update / growth. -/
 inductive ASet.Reach {κ : Type} [LinOrd κ] (key : α → κ) (P : Nat) (d : α) : ASet α → Prop where
@@ -81,6 +212,21 @@ inductive ASet.Reach {κ : Type} [LinOrd κ] (key : α → κ) (P : Nat) (d : α
 
 theorem ASet.reach_inv {κ : Type} [LinOrd κ] {key : α → κ} {P : Nat} {d : α} {s : ASet α}
     (h : ASet.Reach key P d s) : s.Inv key P := by
-  sorry
+  induction h with
+  | zero n => exact ASet.inv_zero key P d n
+  | insert x r hr hs ih =>
+    rcases ASet.insert_spec ih x with ⟨_, he⟩ | ⟨_, _, s'', he, hi, _⟩
+    · rw [he] at hs
+      cases hs; exact ih
+    · rw [he] at hs
+      cases hs; exact hi
+  | take k r hr hs ih =>
+    rcases ASet.take_spec ih k with ⟨_, he⟩ | ⟨y, s'', _, he, hi, _⟩
+    · rw [he] at hs
+      cases hs; exact ih
+    · rw [he] at hs
+      cases hs; exact hi
+  | update k y hk hr hs ih => exact ASet.update_same_key ih k y hk hs
+  | extend n hr ih => exact (ASet.extend_spec ih d n).1
 
 end Stevia
